@@ -40,6 +40,65 @@ def run(ctx):
     rule_d(ctx)
 
 
+def rule_a_overwrite_form(ctx, b, sl):
+    """the function may also be written as `let mut v = current_view.clone(); if what.contains(X) { v.f = restored.f.clone(); }`:
+    then every field of a portion must be overwritten from the same-named field of the restored view under that
+    portion's test, and the git fields must not be overwritten"""
+    F = ctx.F
+    all_fields = {r["name"] for r in F.q("SELECT name FROM adt_field WHERE adt=?", (SV,))}
+    known = REPO_FIELDS | REMOTE_FIELDS | GIT_FIELDS
+    ctx.ob("C41.a/portion-table-complete", SV, all_fields == known, "every field is assigned to a portion" if
+           all_fields == known else f"fields without a portion rule: {sorted(all_fields ^ known)}")
+    rets = [j for j, bl in enumerate(b.blocks) if not bl.get("c") and bl["t"]["k"] == "return"]
+    base_ok = False
+    if rets:
+        t = strip(sl.place([0], at=rets[0]))
+        txt = show(t)
+        base_ok = "current_view" in txt[:60] and "clone" in txt[:40]
+    if not ctx.anchor("C41.b", "op_store::View literal or clone(current_view) + field overwrites", 1 if base_ok else 0, 1):
+        return
+    select = {}
+    for c in b.calls:
+        if c.cleanup or not name_matches(c.res or c.decl or "", "re:::contains$"):
+            continue
+        what = strip(sl.call_arg(c, 1))
+        variant = what[2] if isinstance(what, tuple) and what[0] == "agg" else None
+        trues, falses = bool_edges(F, b, c)
+        if variant and trues:
+            select[variant] = set(trues)
+    writes = {}
+    for i, blk in enumerate(b.blocks):
+        if blk.get("c"):
+            continue
+        for st in blk["s"]:
+            fl = [e for e in st["l"][1:] if isinstance(e, list) and e[0] == "f"]
+            if fl and len(fl[0]) > 3 and fl[0][3] == SV:
+                writes.setdefault(fl[0][2], []).append((i, sl._rvalue(st["r"], i)))
+    for f in sorted(all_fields):
+        ws = writes.get(f, [])
+        if f in GIT_FIELDS:
+            ctx.ob("C41.a/field-source", f, not ws, f"{f} keeps the current view's value" if not ws else
+                   f"{f} is overwritten although Git refs/heads must stay as they are")
+            continue
+        want = "Repo" if f in REPO_FIELDS else "RemoteTracking"
+        ok = False
+        why = f"{f} is never overwritten from the restored view: it keeps its current value, so `undo`/`op restore` do not restore it"
+        for i, t in ws:
+            n = None
+            for a in alts(t):
+                a = norm(a)
+                if isinstance(a, tuple) and a[0] == "field" and a[2] == SV:
+                    n = a
+            src_ok = n is not None and n[3] == f and {l[1] for l in term_leaves(n[1]) if l[0] == "param"} == {1}
+            guard_ok = want in select and b.set_dominated(i, select[want])
+            if src_ok and guard_ok:
+                ok = True
+            else:
+                why = (f"{f} is overwritten from {show(t)[:80]}" if not src_ok else
+                       f"{f} is overwritten outside the what.contains({want}) == true edge")
+        ctx.ob("C41.a/field-source", f, ok, f"{f} := restored.{f} when `what` contains {want}" if ok else why)
+
+
 def rule_a(ctx):
     F = ctx.F
     b = F.body(FN)
@@ -53,8 +112,8 @@ def rule_a(ctx):
             rv = s["r"]
             if rv["k"] == "agg" and rv.get("adt") == SV:
                 agg = (i, rv)
-    if not ctx.anchor("C41.b", "op_store::View literal", 1 if agg else 0, 1):
-        return
+    if not agg:
+        return rule_a_overwrite_form(ctx, b, sl)
     i, rv = agg
     all_fields = {r["name"] for r in F.q("SELECT name FROM adt_field WHERE adt=?", (SV,))}
     lit_fields = set(rv["fields"])
